@@ -212,6 +212,23 @@ def prove_extend(S, explicit_offsets, scenario=None):
                     z3.Select(xa.cols[0], s) == z3.If(z3.And(upd(s), N * W > 0), z3.Select(xf.cols[0], z3.Select(K, witV(s))), z3.Select(pad.cols[0], s))),
                     patterns=[z3.Select(xa.cols[0], s)])))]
 
+    # lemma, proved once where the conversion table is complete (`np.vectorize(structure_index_map2.get)`) and used by every term kind:
+    # every atom index o of `other` is a key, and it is sent to the mapped atom of self, or to N + (its rank among the unmapped atoms)
+    orig_vectorize = I.models['numpy.vectorize']
+
+    def vectorize_with_lemma(ctx, args, kwargs):
+        r = orig_vectorize(ctx, args, kwargs)
+        m, fl = st.get('map'), I.notes.get('filters', [])
+        if m is not None and len(fl) == 1 and isinstance(r, models_ext.VecGet):
+            posA = fl[0]['pos']
+            N, NB = st['old']['positions'].length, st['oth']['positions'].length
+            o = z3.Int('lem_o')
+            corr_o = z3.If(m.mem(o), z3.Select(m.vals.cols[0], m.wit(o)), N + posA(o))
+            body = z3.Implies(z3.And(o >= 0, o < NB), z3.And(models_ext.map_has(r.m, o), models_ext.map_lookup(r.m, o) == corr_o))
+            I.oblige("extend[%s]/lemma/index-conversion-table-is-total-and-sends-each-atom-to-its-counterpart" % tagv, z3.ForAll([o], body), 'lemma')
+            I.assume(z3.ForAll([o], body, patterns=[m.mem(o)]))
+        return r
+    I.models['numpy.vectorize'] = vectorize_with_lemma
     I.funcspecs['%s:Atoms.extend' % REL] = FuncSpec(loops=[LoopSpec('(other_index, self_index) in structure_index_map.items()', inv=inv_A)])
     clo = I.closure_for(REL, 'Atoms.extend')
 
@@ -325,6 +342,26 @@ def prove_extend(S, explicit_offsets, scenario=None):
                     raise OutOfSubset("%s: the superseded rows are not `forward matches + reverse matches`" % pl)
             r_, q_ = z3.Int('tr'), z3.Int('tq')
             newrows = ap[1]
+            # stepping stones (each is an obligation of its own, then a hypothesis for the postconditions below): keeps every query small
+            ql = z3.Int('lq_' + k)
+            trig = [z3.Select(fo[pl].cols[0], ql)]
+            inq = z3.And(ql >= 0, ql < Q)
+            trig2 = [z3.Select(fo[pl].cols[0], ql), z3.Select(newrows.cols[0], ql)]
+            rl = z3.Int('lr_' + k)
+            steps = [('converted-rows-are-the-others-rows-through-the-index-map',
+                      z3.And(newrows.length == Q, z3.ForAll([ql], z3.Implies(inq, z3.And(*[z3.Select(cn, ql) == corr(z3.Select(co, ql)) for cn, co in zip(newrows.cols, fo[pl].cols)])), patterns=trig2))),
+                     ('converted-rows-refer-to-existing-atoms',
+                      z3.ForAll([ql], z3.Implies(inq, z3.And(*[z3.And(z3.Select(cn, ql) >= 0, z3.Select(cn, ql) < N + mA) for cn in newrows.cols])), patterns=[z3.Select(newrows.cols[0], ql)]))]
+            if d is not None:
+                steps.append(('appended-array-is-old-rows-then-converted-rows',
+                              z3.And(appended.length == R + Q, z3.ForAll([ql], z3.Implies(inq, z3.And(*[z3.Select(ca, R + ql) == z3.Select(cn, ql) for ca, cn in zip(appended.cols, newrows.cols)])), patterns=trig))))
+                steps.append(('appended-array-by-row',
+                              z3.ForAll([rl], z3.Implies(z3.And(rl >= 0, rl < R + Q), z3.And(*[z3.Select(ca, rl) == z3.If(rl < R, z3.Select(co, rl), z3.Select(cn, rl - R))
+                                                                                              for ca, co, cn in zip(appended.cols, old_t.cols, newrows.cols)])), patterns=[z3.Select(appended.cols[0], rl)])))
+                steps.append(('new-rows-are-never-superseded', z3.ForAll([ql], z3.Implies(inq, z3.Not(E(R + ql))), patterns=trig)))
+            for lbl, fml in steps:
+                I.oblige("%s/lemma/%s/%s" % (tag, pl, lbl), fml, 'lemma')
+                I.assume(fml)
             # old rows that are not superseded survive, in order, with type and (padded) extra row
             I.oblige("%s/post/%s/other-existing-terms-untouched" % (tag, pl),
                      z3.ForAll([r_], z3.Implies(z3.And(r_ >= 0, r_ < R, z3.Not(E(r_))), z3.And(
@@ -332,12 +369,13 @@ def prove_extend(S, explicit_offsets, scenario=None):
                          *([z3.Select(cn, dst(r_)) == z3.Select(co, r_) for cn, co in zip(res.cols, old_t.cols)]
                            + [z3.Select(rty.cols[0], dst(r_)) == z3.Select(old_ty.cols[0], r_), z3.Select(rx.cols[0], dst(r_)) == z3.Select(pad[k].cols[0], r_)])))), 'post')
             # every term of other appears once, between the corresponding atoms, with the other's type + offset and extra row
-            I.oblige("%s/post/%s/every-other-term-added-between-corresponding-atoms" % (tag, pl),
-                     z3.ForAll([q_], z3.Implies(z3.And(q_ >= 0, q_ < Q), z3.And(
-                         dst(R + q_) >= 0, dst(R + q_) < res.length,
-                         *([z3.Select(cn, dst(R + q_)) == corr(z3.Select(co, q_)) for cn, co in zip(res.cols, fo[pl].cols)]
-                           + [z3.Select(rty.cols[0], dst(R + q_)) == z3.Select(fo[k + '_types'].cols[0], q_) + offk,
-                              z3.Select(rx.cols[0], dst(R + q_)) == z3.Select(xf[ki + 1].cols[0], q_)])))), 'post')
+            inq2 = z3.And(q_ >= 0, q_ < Q)
+            parts_ = [('position-exists', z3.And(dst(R + q_) >= 0, dst(R + q_) < res.length)),
+                      ('atoms', z3.And(*[z3.Select(cn, dst(R + q_)) == corr(z3.Select(co, q_)) for cn, co in zip(res.cols, fo[pl].cols)])),
+                      ('type', z3.Select(rty.cols[0], dst(R + q_)) == z3.Select(fo[k + '_types'].cols[0], q_) + offk),
+                      ('extra-row', z3.Select(rx.cols[0], dst(R + q_)) == z3.Select(xf[ki + 1].cols[0], q_))]
+            for lbl, body_ in parts_:
+                I.oblige("%s/post/%s/every-other-term-added-between-corresponding-atoms/%s" % (tag, pl, lbl), z3.ForAll([q_], z3.Implies(inq2, body_)), 'post')
             I.oblige("%s/post/%s/lengths" % (tag, pl), z3.And(res.length == mres, rty.length == mres, rx.length == mres, mres <= R + Q), 'post')
             p_ = z3.Int('tp')
             I.oblige("%s/post/%s/every-term-refers-to-existing-atoms" % (tag, pl),
